@@ -118,6 +118,22 @@ def boundary_scenarios(tier, rng):
     elapsed = [0, 999999999, NS, NS + 999999999, 59 * NS, 16777216 * NS + 999999999, 400 * 86400 * NS + 999999999,
                (2 ** 33) * NS, 293 * year * NS, 1000 * year * NS]
     out, n = [], 0
+    # always: stream durations (create, top-up extension, remainder after a rate change) at every point where a
+    # nanosecond product of the duration wraps a signed or unsigned 64-bit integer: k x 2^63 / 10^9 seconds, k = 1..6
+    for k in range(1, 7):
+        secs = (k * two63 + NS - 1) // NS
+        for r in (1, 2):
+            d = secs * r
+            mid = [dict(op="topup", dtNs=str(NS), amt=str(d)), dict(op="rate", dtNs=str(2 * NS + 1), rate=str(r + 1))][k % 2]
+            steps = [dict(op="create", dtNs=str(NS), amt=str(d), rate=str(r)), dict(op="claim", dtNs=str(10 * NS)), mid,
+                     dict(op="claim", dtNs=str(20 * NS)), dict(op="cancel", dtNs=str(5 * NS))]
+            out.append(dict(id="w%d" % n, bal=str(d * 4 + 1000), feeNum=1, feeDen=100, steps=steps))
+            n += 1
+        # a small stream whose top-up alone carries the wrapping duration; a rate change that leaves it as remainder
+        steps = [dict(op="create", dtNs=str(NS), amt="600", rate="3"), dict(op="topup", dtNs=str(NS), amt=str(secs * 3)), dict(op="claim", dtNs=str(7 * NS)),
+                 dict(op="rate", dtNs=str(NS), rate="1"), dict(op="claim", dtNs=str(9 * NS)), dict(op="cancel", dtNs=str(5 * NS))]
+        out.append(dict(id="w%d" % n, bal=str(secs * 12 + 1000), feeNum=0, feeDen=1, steps=steps))
+        n += 1
     combos = [(d, r) for d in deps for r in rates if d // r >= 60]
     rng.shuffle(combos)
     cap = 40 if tier == "quick" else 400
